@@ -556,3 +556,335 @@ Example width_irrelevant_reduce_nonvacuous :
   m_grouped_sum (DInt u8) (repeat 0 (Z.to_nat 200) ++ repeat 1 (Z.to_nat 200) ++ repeat 2 (Z.to_nat 200))
                 (repeat 1 (Z.to_nat 600)) = Ok [(0, 200); (1, 200); (2, 200)].
 Proof. vm_compute. reflexivity. Qed.
+
+(* ------------------------------------------------------------------ triu / tril: coords[-2] + k *)
+(* clause: k is representable and so is (largest row coordinate) + k *)
+Definition triu_clause (t : ity) (nr k : Z) : bool := fits (DInt t) k && fits (DInt t) (nr - 1 + k).
+
+Lemma tri_added t nr r k :
+  0 < bits t -> coords_in nr r -> triu_clause t nr k = true ->
+  arr_py Z.add (mkT (DInt t) r) k = Ok (mkT (DInt t) (map (fun x => x + k) r)).
+Proof.
+  intros Hb Hr Hc. unfold triu_clause in Hc. apply andb_true_iff in Hc. destruct Hc as [Fk Fn].
+  unfold arr_py. cbn [tdt tv]. rewrite Fk. f_equal. f_equal.
+  eapply map_ext_Forall; [|exact Hr]. cbn beta. intros x Hx.
+  apply wr_fits; [exact Hb|]. eapply fits_between; [exact Fk|exact Fn|lia].
+Qed.
+
+Theorem width_irrelevant_triu_partial_proof t nr r c k :
+  std t -> coords_in nr r -> triu_clause t nr k = true ->
+  m_triu (DInt t) r c k = m_triu DInf r c k /\ m_tril (DInt t) r c k = m_tril DInf r c k.
+Proof.
+  intros St Hr Hc. pose proof (std_pos t St) as Hb.
+  unfold m_triu, m_tril, s_triu_mask, s_tril_mask.
+  rewrite (tri_added t nr r k Hb Hr Hc). unfold arr_py. cbn [tdt tv fits bind].
+  unfold cmp_arr. cbn [tv]. split; reflexivity.
+Qed.
+
+Theorem triu_unrepresentable_k_proof t r c k :
+  fits (DInt t) k = false ->
+  m_triu (DInt t) r c k = Raise OverflowError /\ m_tril (DInt t) r c k = Raise OverflowError.
+Proof.
+  intros H. unfold m_triu, m_tril, s_triu_mask, s_tril_mask, arr_py. cbn [tdt]. rewrite H. split; reflexivity.
+Qed.
+
+(* D6: unsigned coordinates and a negative k — OverflowError *)
+Theorem triu_refuted_unsigned_proof :
+  exists t nr r c k, std t /\ coords_in nr r /\ can_store (DInt t) nr = true /\ sg t = false /\ k < 0 /\
+    m_triu (DInt t) r c k = Raise OverflowError /\ m_triu DInf r c k = Ok [true; false].
+Proof.
+  exists u8, 5, [0; 4], [0; 1], (-1). repeat split; try reflexivity; try lia.
+  - unfold std; cbn; lia.
+  - repeat constructor; lia.
+Qed.
+
+(* new finding: k is representable but coords + k wraps — a silently wrong mask *)
+Theorem triu_refuted_wrap_proof :
+  exists t nr r c k m, std t /\ coords_in nr r /\ can_store (DInt t) nr = true /\ fits (DInt t) k = true /\
+    m_triu (DInt t) r c k = Ok m /\ m_triu DInf r c k <> Ok m.
+Proof.
+  exists i8, 120, [100; 0], [5; 110], 100, [true; true]. repeat split; try reflexivity; try lia.
+  - unfold std; cbn; lia.
+  - repeat constructor; lia.
+  - vm_compute. congruence.
+Qed.
+
+Example width_irrelevant_triu_nonvacuous :
+  std i8 /\ coords_in 100 [0; 50; 99] /\ triu_clause i8 100 (-20) = true /\
+  m_triu (DInt i8) [0; 50; 99] [0; 10; 99] (-20) = Ok [true; false; true].
+Proof. repeat split; try reflexivity; [unfold std; cbn; lia|repeat constructor; lia]. Qed.
+
+(* ------------------------------------------------------------------ kron, pad, stack: promoted arithmetic *)
+Definition not_u64 (t : ity) : bool := sg t || (bits t <? 64).
+
+Lemma promote_i64_l t : std t -> not_u64 t = true -> promote (DInt t) (DInt i64) = DInt i64.
+Proof.
+  intros St H. unfold not_u64 in H. cbn [promote]. unfold promote_i. cbn [sg i64 bits].
+  unfold std in St. destruct (sg t); cbn [Bool.eqb].
+  - replace (Z.max (bits t) 64) with 64 by lia. reflexivity.
+  - cbn [orb] in H. change (bits i64) with 64. rewrite H. reflexivity.
+Qed.
+
+Lemma promote_i64_r t : std t -> not_u64 t = true -> promote (DInt i64) (DInt t) = DInt i64.
+Proof.
+  intros St H. unfold not_u64 in H. cbn [promote]. unfold promote_i. cbn [sg i64 bits].
+  unfold std in St. destruct (sg t); cbn [Bool.eqb].
+  - replace (Z.max 64 (bits t)) with 64 by lia. reflexivity.
+  - cbn [orb] in H. change (bits i64) with 64. rewrite H. reflexivity.
+Qed.
+
+Lemma promote_u64 t : std t -> not_u64 t = false -> promote (DInt t) (DInt i64) = DFloat.
+Proof.
+  intros St H. unfold not_u64 in H. apply orb_false_iff in H. destruct H as [Hs Hb].
+  cbn [promote]. unfold promote_i. rewrite Hs. cbn [sg i64 bits Bool.eqb]. rewrite Hb.
+  destruct (Z.ltb_spec (bits t) 64); [lia|reflexivity].
+Qed.
+
+Lemma wr_i64 z : - 2 ^ 63 <= z < 2 ^ 63 -> wr (DInt i64) z = z.
+Proof. intros H. apply wr_fits; [cbn; lia|]. apply fits_iff. cbn. lia. Qed.
+
+Theorem width_irrelevant_pad_proof t n c p :
+  std t -> not_u64 t = true -> coords_in n c -> 0 <= p -> n + p < 2 ^ 63 ->
+  rmap tv (m_pad (DInt t) c p) = rmap tv (m_pad DInf c p).
+Proof.
+  intros St Hn Hc Hp Hlt. unfold m_pad, s_pad_map, arr_np. cbn [tdt tv].
+  rewrite (promote_i64_l t St Hn). cbn [promote bind ctor_int tdt rmap tv]. f_equal.
+  eapply map_ext_Forall; [|exact Hc]. cbn beta. intros x Hx.
+  change (wr DInf (x + p)) with (x + p). apply wr_i64. lia.
+Qed.
+
+Theorem pad_u64_proof t c p :
+  std t -> not_u64 t = false -> m_pad (DInt t) c p = Raise TypeError.
+Proof.
+  intros St Hn. unfold m_pad, s_pad_map, arr_np. cbn [tdt tv]. rewrite (promote_u64 t St Hn). reflexivity.
+Qed.
+
+Lemma kron_vals bs : forall a b na,
+  coords_in na a -> coords_in bs b -> 0 <= bs -> na * bs < 2 ^ 63 ->
+  map (fun p => wr (DInt i64) (fst p + snd p)) (combine (map (fun c => wr (DInt i64) (c * bs)) a) b) =
+  map (fun p => fst p + snd p) (combine (map (fun c => c * bs) a) b).
+Proof.
+  induction a as [|x a IH]; intros b na Ha Hb Hbs Hlt; [reflexivity|].
+  destruct b as [|y b]; [reflexivity|].
+  inversion Ha; subst. inversion Hb; subst. cbn [map combine fst snd].
+  rewrite (IH b na) by assumption. f_equal.
+  assert (0 <= x * bs /\ x * bs + y < na * bs) by nia.
+  rewrite (wr_i64 (x * bs)) by lia. apply wr_i64. lia.
+Qed.
+
+Theorem width_irrelevant_kron_proof t na a bs b :
+  std t -> not_u64 t = true -> coords_in na a -> coords_in bs b -> 0 <= bs -> na * bs < 2 ^ 63 ->
+  rmap tv (m_kron (DInt t) a bs b) = rmap tv (m_kron DInf a bs b).
+Proof.
+  intros St Hn Ha Hb Hbs Hlt. unfold m_kron, s_kron_map, arr_np, arr_arr. cbn [tdt tv bind].
+  rewrite (promote_i64_l t St Hn). rewrite (promote_i64_r t St Hn).
+  cbn [promote bind ctor_int tdt rmap tv]. f_equal.
+  change (fun p : Z * Z => wr DInf (fst p + snd p)) with (fun p : Z * Z => fst p + snd p).
+  change (fun c : Z => wr DInf (c * bs)) with (fun c : Z => c * bs).
+  apply (kron_vals bs a b na); assumption.
+Qed.
+
+Theorem kron_u64_proof t a bs b :
+  std t -> not_u64 t = false -> m_kron (DInt t) a bs b = Raise TypeError.
+Proof.
+  intros St Hn. unfold m_kron, s_kron_map, arr_np, arr_arr. cbn [tdt tv bind].
+  rewrite (promote_u64 t St Hn). reflexivity.
+Qed.
+
+Theorem stack_dtype_proof t :
+  std t -> (not_u64 t = true -> m_stack_dtype (DInt t) = Ok (DInt i64)) /\
+           (not_u64 t = false -> m_stack_dtype (DInt t) = Raise IndexError).
+Proof.
+  intros St. unfold m_stack_dtype, s_stack_new_row. split; intros H.
+  - rewrite (promote_i64_l t St H). reflexivity.
+  - rewrite (promote_u64 t St H). reflexivity.
+Qed.
+
+(* the full statements (all eight types) are false for uint64: promotion to float64 *)
+Theorem promoted_ops_refuted_proof :
+  exists t, std t /\
+    m_pad (DInt t) [1] 1 = Raise TypeError /\ m_pad DInf [1] 1 = Ok (mkT DInf [2]) /\
+    m_kron (DInt t) [1] 3 [2] = Raise TypeError /\ m_stack_dtype (DInt t) = Raise IndexError.
+Proof. exists u64. repeat split; try reflexivity. unfold std; cbn; lia. Qed.
+
+Example width_irrelevant_kron_nonvacuous :
+  std u8 /\ not_u64 u8 = true /\ coords_in 101 [100; 3] /\ coords_in 200 [2; 199] /\
+  m_kron (DInt u8) [100; 3] 200 [2; 199] = Ok (mkT (DInt i64) [20002; 799]).
+Proof. repeat split; try reflexivity; [unfold std; cbn; lia|repeat constructor; lia|repeat constructor; lia]. Qed.
+
+(* ------------------------------------------------------------------ COO constructor with idx_dtype *)
+Theorem width_irrelevant_ctor_proof ti t mshape n c :
+  std ti -> std t -> can_store (DInt t) mshape = true -> 0 <= n <= mshape -> coords_in n c ->
+  rmap tv (m_ctor (Some (DInt ti)) mshape (mkT (DInt t) c)) = Ok c
+  \/ m_ctor (Some (DInt ti)) mshape (mkT (DInt t) c) = Raise ValueError.
+Proof.
+  intros Si St Hm Hn Hc. unfold m_ctor. destruct (can_store (DInt ti) mshape) eqn:E; cbn [negb];
+    [left|right; reflexivity].
+  unfold astype. cbn [rmap tv]. f_equal. apply map_wr_id; [apply std_pos, Si|].
+  eapply Forall_impl; [|exact Hc]. cbn beta. intros x Hx.
+  apply (fits_le ti mshape); [apply std_pos, Si|exact E|lia].
+Qed.
+
+(* ------------------------------------------------------------------ GCXS._from_coo: idx_dtype choice *)
+Theorem from_coo_dtype_proof idx t m :
+  std t -> 0 <= m < 2 ^ 64 ->
+  match idx with Some (DInt ti) => std ti | Some _ => False | None => True end ->
+  (exists t', m_from_coo_dtype idx (DInt t) m = Ok (DInt t') /\ std t' /\ fits (DInt t') m = true)
+  \/ m_from_coo_dtype idx (DInt t) m = Raise ValueError.
+Proof.
+  intros St Hm Hi. unfold m_from_coo_dtype. destruct idx as [[|ti|]|]; try contradiction.
+  - destruct (can_store (DInt ti) m) eqn:E; cbn [negb]; [left; exists ti; auto|right; reflexivity].
+  - left. unfold g_from_coo_choice. cbn [bind].
+    unfold ext_can_store at 1. rewrite pyv_dty_roundtrip by (apply std_pos, St). cbn [as_int].
+    destruct (fits (DInt t) m) eqn:E; cbn [bind py_not truthy cond negb dec_dty1 dec_dty].
+    + rewrite pyv_dty_roundtrip by (apply std_pos, St). exists t. auto.
+    + destruct (ext_min_scalar_type_nonneg m Hm) as [t' [E' [S' F']]]. rewrite E'. cbn [bind dec_dty1 dec_dty].
+      rewrite pyv_dty_roundtrip by (apply std_pos, S'). exists t'. auto.
+Qed.
+
+(* the column indices and the (uncumulated) row coordinates are digits below the compressed shape *)
+Theorem from_coo_digits_proof t m lin stride dim :
+  std t -> fits (DInt t) m = true -> 0 < dim <= m ->
+  tv (s_from_coo_digit (DInt t) lin stride dim) = tv (s_from_coo_digit DInf lin stride dim).
+Proof.
+  intros St Fm Hd. pose proof (std_pos t St) as Hb.
+  unfold s_from_coo_digit, assign_into, astype. cbn [tv]. rewrite !map_map.
+  apply map_ext. intros l. change (wr DInf ?z) with z.
+  apply wr_fits; [exact Hb|]. apply (fits_le t m); [exact Hb|exact Fm|].
+  unfold np_mod. destruct (Z.eqb_spec dim 0); [lia|].
+  pose proof (Z.mod_pos_bound (np_div l stride) dim ltac:(lia)). lia.
+Qed.
+
+(* ------------------------------------------------------------------ GCXS concatenate / stack: indptr splice *)
+Definition ptr_ok (p : list Z * Z) : Prop := 0 <= snd p /\ Forall (fun v => 0 <= v <= snd p) (fst p).
+
+Lemma add_all_inf t m : forall offs seg base,
+  0 < bits t -> fits (DInt t) m = true ->
+  Forall (fun o => 0 <= o) offs -> 0 <= base ->
+  Forall (fun v => 0 <= v <= base) seg -> base + zsum offs <= m ->
+  rmap tv (add_all (mkT (DInt t) seg) offs) = rmap tv (add_all (mkT DInf seg) offs).
+Proof.
+  induction offs as [|o r IH]; intros seg base Hb Fm Ho Hbase Hseg Hsum; [reflexivity|].
+  inversion Ho; subst. cbn [zsum fold_right] in Hsum. fold (zsum r) in Hsum.
+  assert (0 <= zsum r) by (clear - H2; induction H2; cbn; unfold zsum in *; lia).
+  cbn [add_all]. unfold s_gcxs_concat_add, iarr_py, arr_py. cbn [tdt tv].
+  rewrite (fits_le t m o Hb Fm) by lia. cbn [fits bind].
+  assert (E : map (fun c => wr (DInt t) (c + o)) seg = map (fun c => wr DInf (c + o)) seg).
+  { eapply map_ext_Forall; [|exact Hseg]. cbn beta. intros v Hv. change (wr DInf (v + o)) with (v + o).
+    apply wr_fits; [exact Hb|]. apply (fits_le t m); [exact Hb|exact Fm|lia]. }
+  rewrite E. apply (IH _ (base + o)); auto; try lia.
+  rewrite Forall_map. eapply Forall_impl; [|exact Hseg]. cbn. lia.
+Qed.
+
+Lemma zsum_app a b : zsum (a ++ b) = zsum a + zsum b.
+Proof. induction a; cbn; unfold zsum in *; cbn; lia. Qed.
+
+Lemma zsum_nonneg l : Forall (fun o => 0 <= o) l -> 0 <= zsum l.
+Proof. intros H. induction H; cbn; unfold zsum in *; cbn; lia. Qed.
+
+Lemma join_tail_inf t m : forall segs prev,
+  0 < bits t -> fits (DInt t) m = true ->
+  Forall (fun o => 0 <= o) prev -> Forall ptr_ok segs ->
+  zsum prev + zsum (map snd segs) <= m ->
+  join_tail (DInt t) prev segs = join_tail DInf prev segs.
+Proof.
+  induction segs as [|[p nz] r IH]; intros prev Hb Fm Hprev Hok Hsum; [reflexivity|].
+  inversion Hok as [|? ? [Hnz Hp] Hr]; subst. cbn [fst snd] in *.
+  cbn [map zsum fold_right snd] in Hsum. fold (zsum (map snd r)) in Hsum.
+  assert (0 <= zsum (map snd r)).
+  { apply zsum_nonneg. rewrite Forall_map. eapply Forall_impl; [|exact Hr]. intros [a b] [H1 _]. exact H1. }
+  pose proof (zsum_nonneg prev Hprev).
+  cbn [join_tail].
+  assert (Htl : Forall (fun v => 0 <= v <= nz) (tl p)) by (destruct p; [constructor|inversion Hp; assumption]).
+  assert (W : map (wr (DInt t)) (tl p) = tl p).
+  { apply map_wr_id; [exact Hb|]. eapply Forall_impl; [|exact Htl]. cbn beta. intros v Hv.
+    apply (fits_le t m); [exact Hb|exact Fm|lia]. }
+  rewrite W. replace (map (wr DInf) (tl p)) with (tl p) by (clear; induction (tl p); cbn; congruence).
+  pose proof (add_all_inf t m prev (tl p) nz Hb Fm Hprev Hnz Htl ltac:(lia)) as A.
+  rewrite (IH (prev ++ [nz])); auto.
+  - destruct (add_all (mkT (DInt t) (tl p)) prev) as [s1|e1], (add_all (mkT DInf (tl p)) prev) as [s2|e2];
+      cbn [rmap] in A; try discriminate; cbn [bind]; [|congruence].
+    injection A as A. rewrite A. reflexivity.
+  - apply Forall_app. split; [exact Hprev|constructor; [exact Hnz|constructor]].
+  - rewrite zsum_app. cbn. lia.
+Qed.
+
+Theorem width_irrelevant_gcxs_join_proof t ptrs :
+  std t -> Forall ptr_ok ptrs -> zsum (map snd ptrs) < 2 ^ 64 ->
+  rmap tv (m_gcxs_join (DInt t) ptrs) = rmap tv (m_gcxs_join DInf ptrs).
+Proof.
+  intros St Hok Hlt. unfold m_gcxs_join.
+  set (total := zsum (map snd ptrs)) in *.
+  assert (Hnn : 0 <= total).
+  { apply zsum_nonneg. rewrite Forall_map. eapply Forall_impl; [|exact Hok]. intros [a b] [H1 _]. exact H1. }
+  assert (D : exists t', gcxs_join_dtype (DInt t) total = Ok (DInt t') /\ std t' /\ fits (DInt t') total = true).
+  { unfold gcxs_join_dtype. destruct (can_store (DInt t) total) eqn:E; cbn [negb]; [exists t; auto|].
+    destruct (ext_min_scalar_type_nonneg total ltac:(lia)) as [t' [E' [S' F']]].
+    unfold g_gcxs_concat_upcast. rewrite E'. cbn [bind dec_dty1 dec_dty].
+    rewrite pyv_dty_roundtrip by (apply std_pos, S'). exists t'. auto. }
+  destruct D as [t' [E [S' F']]]. rewrite E. cbn [bind].
+  unfold gcxs_join_dtype. rewrite can_store_inf. cbn [negb bind].
+  destruct ptrs as [|[p0 n0] r]; [reflexivity|].
+  inversion Hok as [|? ? [Hn0 Hp0] Hr]; subst. cbn [fst snd] in *.
+  unfold total in *. cbn [map zsum fold_right snd] in F', Hlt, Hnn. fold (zsum (map snd r)) in F', Hlt, Hnn.
+  pose proof (std_pos t' S') as Hb.
+  assert (0 <= zsum (map snd r)).
+  { apply zsum_nonneg. rewrite Forall_map. eapply Forall_impl; [|exact Hr]. intros [a b] [H1 _]. exact H1. }
+  rewrite (join_tail_inf t' (n0 + zsum (map snd r)) r [n0] Hb F'); auto.
+  2:{ cbn. lia. }
+  assert (W : map (wr (DInt t')) p0 = p0).
+  { apply map_wr_id; [exact Hb|]. eapply Forall_impl; [|exact Hp0]. cbn beta. intros v Hv.
+    apply (fits_le t' (n0 + zsum (map snd r))); [exact Hb|exact F'|lia]. }
+  rewrite W. replace (map (wr DInf) p0) with p0 by (clear; induction p0; cbn; congruence).
+  destruct (join_tail DInf [n0] r); reflexivity.
+Qed.
+
+Example width_irrelevant_gcxs_join_nonvacuous :
+  std u8 /\ Forall ptr_ok [([0; 100; 200], 200); ([0; 50; 100], 100)] /\
+  m_gcxs_join (DInt u8) [([0; 100; 200], 200); ([0; 50; 100], 100)] = Ok (mkT (DInt u16) [0; 100; 200; 250; 300]).
+Proof.
+  repeat split; try reflexivity; [unfold std; cbn; lia|].
+  repeat constructor; cbn; lia.
+Qed.
+
+(* ------------------------------------------------------------------ uncompress_dimension: row numbers in
+   indptr's dtype.  New finding: after a GCXS join the number of rows may exceed that dtype. *)
+Lemma rows_of_range : forall ptr i,
+  Forall (fun v => i <= v < i + Z.of_nat (length ptr) - 1) (rows_of i ptr).
+Proof.
+  induction ptr as [|a r IH]; intros i; [constructor|].
+  destruct r as [|b r']; [constructor|].
+  change (rows_of i (a :: b :: r')) with (repeat i (Z.to_nat (b - a)) ++ rows_of (i + 1) (b :: r')).
+  apply Forall_app. split.
+  - apply Forall_forall. intros v Hv. apply repeat_spec in Hv. subst.
+    cbn [length]. rewrite !Nat2Z.inj_succ. lia.
+  - eapply Forall_impl; [|apply (IH (i + 1))]. cbn beta. intros v Hv.
+    cbn [length] in *. rewrite !Nat2Z.inj_succ in *. lia.
+Qed.
+
+Definition uncompress_clause (t : ity) (indptr : list Z) : bool :=
+  fits (DInt t) (Z.of_nat (length indptr) - 1).
+
+Theorem width_irrelevant_uncompress_partial_proof t indptr :
+  std t -> uncompress_clause t indptr = true ->
+  tv (m_uncompress (DInt t) indptr) = tv (m_uncompress DInf indptr).
+Proof.
+  intros St Hc. pose proof (std_pos t St) as Hb. unfold uncompress_clause in Hc.
+  unfold m_uncompress, s_uncompress_store, assign_into, astype. cbn [tv].
+  replace (map (wr DInf) (rows_of 0 indptr)) with (rows_of 0 indptr)
+    by (clear; induction (rows_of 0 indptr); cbn; congruence).
+  apply map_wr_id; [exact Hb|]. eapply Forall_impl; [|apply rows_of_range]. cbn beta. intros v Hv.
+  destruct indptr as [|a r]; [cbn in Hv; lia|].
+  apply (fits_le t (Z.of_nat (length (a :: r)) - 1)); [exact Hb|exact Hc|lia].
+Qed.
+
+Theorem uncompress_refuted_proof :
+  exists t indptr,
+    std t /\ Forall (fun v => fits (DInt t) v = true) indptr /\
+    tv (m_uncompress (DInt t) indptr) <> tv (m_uncompress DInf indptr).
+Proof.
+  exists u8, (repeat 0 (Z.to_nat 300) ++ [1]). split; [unfold std; cbn; lia|]. split.
+  - apply Forall_app. split; [apply Forall_forall; intros v Hv; apply repeat_spec in Hv; subst; reflexivity|].
+    repeat constructor.
+  - vm_compute. congruence.
+Qed.
